@@ -182,7 +182,7 @@ func (m *c04mon) finish(cx *clusterRun) { cx.c.Stat("record_checks", m.checks) }
 func execC04(c *Ctx) {
 	p := c.Plan
 	mon := &c04mon{}
-	cx := startClusterRun(c, mon, &healthMon{}, newEventMon(), newMonoMon(ms(p.Cfg.GossipToDeadMs)))
+	cx := startClusterRun(c, mon, &healthMon{}, newEventMon(), newMonoMon(ms(p.Cfg.GossipToDeadMs)), newSelfMon())
 	end := time.Duration(p.param("end", int64(30*time.Second)))
 	c.Sim.RunUntil(end, func() bool { return c.Failed() })
 	probes := int64(0)
